@@ -149,8 +149,8 @@ class FontCtx:
         if "GDEF" in self.font:
             t = self.font["GDEF"].table
             if hasattr(t, "VarStore") and t.VarStore is None:
-                # finding class F4 (sensitivity/C07.md): every request raises AttributeError in subset._pruneGDEF
-                return "F4: GDEF 1.3 with NULL VarStore offset (valid) makes Subsetter.subset raise AttributeError"
+                # former finding class F4 (repaired): GDEF 1.3 with a NULL VarStore offset made every request raise
+                self.note = "gdef-1.3-with-null-varstore"
         return None
 
     def dangling0(self):
@@ -923,7 +923,8 @@ def shape_probes(ctx, case, res, acc, rnd, hb1, new2old, old2new, R, Ruvs, locs,
     if classes_dropped:
         labels.append("gdef-classes-dropped")
         if ctx.ignores_base:
-            acc.exclude("case: emptied GDEF GlyphClassDef dropped and the font has IgnoreBaseGlyphs lookups (shaping not compared)")
+            # former finding class F3 (repaired: an emptied GlyphClassDef is kept): must not come back
+            acc.fail("shaping", "glyph-classes-dropped", "%s: the original has GDEF glyph classes and IgnoreBaseGlyphs lookups, the subset has no glyph classes at all (shapers then synthesise them)" % ctx.fid, case)
             return False
 
     # the original with the subset's repertoire
